@@ -79,3 +79,43 @@ Example C03_two_contributors_do_not :
   ex_run [ETick 1 None; EPart 1 0 101; EPart 1 0 101; EPart 1 0 501; EPart 1 0 1]
   = [[OEmit 1 0 1 1000]; []; []; [OReject]; [OReject]].
 Proof. vm_compute. reflexivity. Qed.
+
+(* ---------- system level, over the composed model Model/Net.v (see Props/C04.v for the model) ---------- *)
+From DV Require Import Model.Net Proofs.TimeProofs Proofs.NetProofs.
+Section C03_system.
+  Variable C : cfg.
+  Variable idx_of : Z -> Z.
+  Variable vpart : Z -> Z -> Z -> Z -> bool.
+  Variable recov : Z -> Z -> Z -> list Z -> Z -> option Z.
+  Variable vrec : Z -> Z -> Z -> bool.
+  Variable own_of : Z -> Z -> Z -> Z -> Z.
+  Hypothesis vrec_unchained : c_chained C = false -> forall r p p' s, vrec r p s = vrec r p' s.
+  Hypothesis recov_sound : forall P r p sigs t s, recov P r p sigs t = Some s ->
+    exists I, incl I sigs /\ NoDup (map idx_of I) /\ t <= Z.of_nat (length I) /\
+              forall x, In x I -> vpart P r p x = true.
+  Hypothesis Hp : dom_p (c_period C).
+  Hypothesis Hg : dom_g (c_genesis C).
+  Variable F : list Z.
+  Variable P t : Z.
+  Hypothesis F_small : Z.of_nat (length F) < t.
+  Variable gen : beacon.
+  Hypothesis gen_round : b_round gen = 0.
+
+  (* In every reachable state of the system (any number of honest nodes, the adversary owning the
+     network and the share indices in F, |F| < t), every beacon in every honest chain beyond
+     genesis had, for exactly its round and one previous signature, valid partials of at least t
+     pairwise distinct indices on the wire, at least t - |F| of them from indices the adversary
+     does not hold: with fewer than t contributing members no beacon exists in any honest store. *)
+  Theorem C03_system_threshold : forall y0 gs,
+    sys_inv C idx_of vpart vrec F P t gen y0 ->
+    gadm_run C idx_of vpart recov vrec own_of F P t y0 gs ->
+    let y := grun C idx_of vpart recov vrec own_of y0 gs in
+    forall s, In s (y_nodes y) -> forall b, In b (s_chain s) -> b <> gen ->
+    exists p I, NoDup (map idx_of I) /\ t <= Z.of_nat (length I) /\
+      (forall x, In x I -> In (b_round b, p, x) (y_pool y) /\ vpart P (b_round b) p x = true) /\
+      t - Z.of_nat (length F) <= Z.of_nat (length (filter (honest_sig idx_of F) I)).
+  Proof.
+    exact (run_threshold C idx_of vpart recov vrec own_of vrec_unchained recov_sound Hp Hg F P t F_small gen gen_round).
+  Qed.
+End C03_system.
+Print Assumptions C03_system_threshold.
